@@ -186,12 +186,29 @@ Proof.
   destruct (wid_eqb (c_id y) id) eqn:E; simpl; [apply IH|rewrite E; apply IH].
 Qed.
 
+Lemma find_filter_none' : forall {A} (f g : A -> bool) l, find f l = None -> find f (filter g l) = None.
+Proof.
+  intros A f g l. induction l as [|y t IH]; simpl; intros H; [reflexivity|].
+  destruct (f y) eqn:E; [discriminate|]. destruct (g y); simpl; [rewrite E|]; auto.
+Qed.
+
+Lemma find_upd_none' : forall l id j st, find (fun y => wid_eqb (c_id y) j) l = None ->
+  find (fun y => wid_eqb (c_id y) j) (upd_cont id st l) = None.
+Proof.
+  induction l as [|y t IH]; intros id j st H; simpl in *; [reflexivity|].
+  destruct (wid_eqb (c_id y) j) eqn:E; [discriminate|].
+  destruct (wid_eqb (c_id y) id) eqn:E2; simpl.
+  - apply wid_eqb_eq in E2. rewrite <- E2. rewrite E. apply IH. exact H.
+  - rewrite E. apply IH. exact H.
+Qed.
+
 Record lambda_removed (id : wid) (x : wl) (w w' : world) : Prop := {
   lr_wls : wls w' = del_wl id (wls w);
   lr_plugs : plugs w' = upd_plug (w_node x) (sub_use (w_res x)) (plugs w);
   lr_norec : find_wl w' id = None;
   lr_nocont : find_cont w' id = None;
   lr_nodes : nodes w' = nodes w;
+  lr_conts_frame : forall j, find_cont w j = None -> find_cont w' j = None;   (* no container appears *)
 }.
 
 (* the clean-up, run without a fault, removes the workload (record, container, usage), commits the WAL entry
@@ -215,6 +232,8 @@ Proof.
   - unfold find_wl. cbn [wls set_out set_wal removed_world oth]. rewrite Hid. apply find_del_none.
   - unfold find_cont. cbn [conts set_out set_wal removed_world oth]. rewrite Hid. apply find_del_cont_none.
   - exact Hn.
+  - intros j Hj. unfold find_cont in *. cbn [conts set_out set_wal removed_world oth]. unfold del_cont. apply find_filter_none'.
+    destruct Hc as [-> | ->]; [exact Hj|]. apply find_upd_none'. exact Hj.
 Qed.
 
 Lemma filter_token_fresh : forall (q : list (nat * event)) t ev, (forall e, ~ In (t, e) q) ->
@@ -277,6 +296,7 @@ Proof.
     constructor; [constructor|..]; cbn [wls plugs nodes conts out walq set_out removed_world oth]; try rewrite Hid; try reflexivity.
     + unfold find_wl. cbn [wls set_out removed_world oth]. rewrite Hid. apply find_del_none.
     + unfold find_cont. cbn [conts set_out removed_world oth]. rewrite Hid. apply find_del_cont_none.
+    + intros j Hj. unfold find_cont in *. cbn [conts set_out removed_world oth]. unfold del_cont. apply find_filter_none'. exact Hj.
     + exists 0%nat, (MLambdaErr (Some id)). split; [reflexivity|left; reflexivity].
   - cbn [exec]. destruct (Hmain (Some k)) as [w' [k' [kc [H [_ Hr]]]]]. rewrite H.
     exists w', k', kc. split; [reflexivity|]. split; [discriminate|]. split; [discriminate|]. exact Hr.
